@@ -16,6 +16,7 @@ INVARIANT Repeated
 INVARIANT Uncovered
 INVARIANT OnlyUncoveredNA
 INVARIANT MemberOwn
+INVARIANT Windows
 INVARIANT FitIdempotent
 INVARIANT Export
 PROPERTY TargetGrowthStable
